@@ -12,7 +12,8 @@ independent CiA 305 slave and request grammar of `Spec/LssSlave.lean`.
   `services_conformant_slave`: the same calls against the CiA 305 slave;
 * `selective_switch_confirmed`, `selective_switch_other_address`;
 * `tables_match_cia305`: the generated constants are the standard's.
-Helper lemmas are in `CanopenProofs/Lemmas/Lss.lean`.
+Helper lemmas are in `CanopenProofs/Lemmas/Lss.lean`; reply latency below the response time-out
+(and silence at or above it) is in `CanopenProofs/C18Latency.lean`.
 -/
 import CanopenProofs.Lemmas.Lss
 
